@@ -8,7 +8,9 @@ META = {
                  "differential run of generated vs real function",
     "level": "Full: for every n in [1,2^64) the generated Gallina image of ByzantineMajority/Minority returns the least "
              "threshold without wrap-around; quorum-overlap and minority corollaries, also in weighted form. The model is "
-             "regenerated from tm/tmconsensus/math.go on every run and run against the real functions on a boundary-biased sweep.",
+             "regenerated from tm/tmconsensus/math.go on every run and run against the real functions on a boundary-biased sweep. "
+             "Callers (partial): the mirror kernel's quorum decisions are compared step by step with the kernel model, which decides "
+             "with the generated thresholds of the recomputed total power and >= comparisons, on histories with validator-set changes.",
     "note": "Trusted: Coq kernel, the translator (cross-checked by differential execution every run), Go uint64 semantics = "
             "arithmetic mod 2^64. No axioms (Print Assumptions: closed under the global context).",
     "design_ref": "DESIGN.md 4 (C18)",
@@ -127,6 +129,18 @@ Print corr_bad. Print mon_bad. Print model_bad.
         b = getattr(c, "broken", {"file": "?", "log": ""})
         c.fail_obligation("Properties/C18.v (%s)" % b["file"], b["log"],
                           {"model_counterexamples": model_bad, "searched_inputs": len(obs)})
+
+    # 6. the CALLERS: every quorum decision of the mirror kernel reads the thresholds of the total power of the view's own
+    # validator set and compares with >= (the contract stated in math.go). Mirror histories with validator-set changes
+    # (other keys, the same keys with other powers, unchanged sets), judged step by step against the kernel model - whose
+    # decisions are the generated byz_majority / byz_minority of the recomputed total - and by the summary monitor c06
+    # (available power = the sum of the view's own set)
+    if not c.replay or "batch_seed" in __import__("json").load(open(c.replay)):
+        import mirrorlib
+        mirrorlib.mirror_check(c, "C18", ["c06"], "C18 thresholds at the kernel's quorum decisions", quick=(20, 40),
+                               thorough=(200, 50), extra=[], prove=False)
+        mc = c.coverage.pop("mirror_histories", {})
+        c.coverage["kernel_quorum_decisions"] = {k: mc[k] for k in ("cases", "evaluations", "correspondence_disagreements", "monitor_failures_on_impl") if k in mc}
 
     nontriv = len(set(o[0] for o in obs if o[0] != 0))
     c.samples = [{"n": o[0], "majority": o[1], "minority": o[2]} for o in obs[:3] + obs[len(obs) // 2:len(obs) // 2 + 3] + obs[-3:]]
